@@ -367,6 +367,12 @@ func (t *treeRun) randTok0(r *hx.Rng, bpc int, tight bool) string {
 				return "" // a directory would get the name of one of its children: fat-name-equals-parent below it
 			}
 		}
+		if t.exists(joinP(dir, n)) && needsTail(n) {
+			// a rename that REPLACES an entry whose 8.3 form carries a numeric tail gets the tail ~2 in
+			// the code (renameEntry scans the entry it is about to drop as a conflict); the model's entry
+			// spelling is a function of the name (~1): such calls are left to the oracle histories
+			return ""
+		}
 		if r.Chance(10) {
 			n = strings.ToUpper(o) // the same name in another spelling: refused by the code
 			if n == o {
@@ -375,6 +381,22 @@ func (t *treeRun) randTok0(r *hx.Rng, bpc int, tight bool) string {
 		}
 		return "r:" + joinP(dir, o) + ":" + n
 	}
+}
+
+// needsTail reports a name whose 8.3 base is cut to six characters plus a numeric tail
+// (convertLfnSfn: more than eight valid characters in front of the last dot).
+func needsTail(name string) bool {
+	base := name
+	if i := strings.LastIndex(name, "."); i >= 0 {
+		base = name[:i]
+	}
+	k := 0
+	for _, c := range base {
+		if c != ' ' && c != '.' {
+			k++
+		}
+	}
+	return k > 8
 }
 
 // longNames(k) are k names of 3 directory slots each with distinct 8.3 forms.
